@@ -31,9 +31,7 @@ NOTES = {
     "C02-8C": "NOT caught, deliberately: it needs suppress_warnings=True on a constraint that cannot be satisfied; the statement's "
               "carve-out is tied to the warning, which the caller has switched off - and the unchanged library itself adds a penalty "
               "below lam (and no warning) for lt_zero with min P = 0 under suppress_warnings=True, so nothing is pinned there",
-    "C19-8B": "NOT caught (open): needs a recorded 'ge' constraint whose polynomial has a sympy coefficient in the info round trip; "
-              "C19's info models have numeric constraints only (a first attempt to generate symbolic ones needed the same change in "
-              "three oracles and was not finished in this session)",
+    "C19-8B": "missed at first; C19's info / alias models now may carry a recorded-only constraint with a sympy coefficient (symcon)",
     "C09-8B": "Problem.solve_bruteforce no longer forwards positional penalty weights: C10's clause (problem-specific solve_bruteforce), "
               "caught by C10",
     "C09-5C": "NOT caught, deliberately (the same change as C09-2A, written independently): Matrix models whose terms cancelled are "
